@@ -457,6 +457,20 @@ let dispatch (op : string) (args : string list) : string =
   | "csv" -> do_csv args
   | "name" -> do_name args
   | "mbrows" -> do_mbrows args
+  | "vplarg.bbox" | "vplarg.zoom" ->
+      (* a parameter: "-" = not given, "()" = given without entries, otherwise its entries joined by ',' *)
+      let param t = if t = "-" then None else if t = "()" then Some [] else Some (List.map codes (String.split_on_char ',' t)) in
+      (match op, args with
+       | "vplarg.bbox", [p] -> if bbox_builds (param p) then "ok" else "err"
+       | "vplarg.zoom", [a; b] -> (match zoom_builds (param a) (param b) with
+           | AErr -> "err"
+           | AOk (lo, hi) ->
+               let lo = match lo with None -> 0 | Some v -> int_of_n v and hi = match hi with None -> 31 | Some v -> min 31 (int_of_n v) in
+               if lo > hi then "ok:empty" else Printf.sprintf "ok:%d-%d" lo hi)
+       | _ -> "?vplarg-args")
+  | "geo.axis" -> (match args with
+      | [s; g; n; uw; ue] -> let (a, b) = axis_box geo_guard_variant (z_of_string s) (z_of_string g) (z_of_string n) (z_of_string uw) (z_of_string ue) in string_of_z a ^ " " ^ string_of_z b
+      | _ -> "?geo-args")
   | "tileid" | "idcoord" | "pmdir.ser" | "pmdir.de" | "pmdir.find" | "vtblocks" | "vtindex" -> do_fmt op args
   | "c12.vt" | "c12.pm" | "c12.vthdr" | "c12.pmhdr" -> do_c12 op args
   | "varint" | "svarint" | "mvt.dec" | "mvt.rt" | "mvt.merge" -> do_mvt op args
